@@ -145,7 +145,21 @@ class WorldB(object):
                        p_sync=sched.get("p_sync", 0.15), p_line=sched.get("p_line", 0.0),
                        opcode_funcs=HOT_FUNCS_B if sched.get("opcode") else (),
                        trace_root=bromelia_trace_root())
-        self.world = SimWorld(self.sim, knobs=scn.get("knobs"),
+        src = None
+        if scn.get("id_boundary"):
+            # the library's random source hands out boundary values first (0, all ones, ...)
+            import random as _r
+            rr = _r.Random(scn["seed"] ^ 0xB0B)
+            first = [b"\x00\x00\x00\x00", b"\xff\xff\xff\xff", b"\x00\x00\x00\x01", b"\x80\x00\x00\x00",
+                     b"\x7f\xff\xff\xff", b"\x00\x00\x01\x00"]
+            rr.shuffle(first)
+            state = {"q": first + first}      # each value once for hop-by-hop and once for end-to-end draws
+
+            def src(n, state=state, rr=rr):
+                if n == 4 and state["q"]:
+                    return state["q"].pop(0)
+                return bytes(rr.getrandbits(8) for _ in range(n))
+        self.world = SimWorld(self.sim, knobs=scn.get("knobs"), urandom=src,
                               urandom_seed=scn["seed"] ^ 0xB0B)
         self.world.install()
         self.events = []
